@@ -99,7 +99,7 @@ def phys(M, mag_s, unit):
 
 def shards(tier, seed):
     out = [("alphabet", "Fraction"), ("alphabet", "float"), ("alphabet", "Fraction", "after-named-system-queries"), ("alphabet", "Fraction", "default_system=cgs"), ("alphabet", "Fraction", "default_system=imperial"),
-           ("alphabet", "Fraction", "after-default-system-round-trip"), ("decimal-magnitudes",), ("numbers", "Fraction"), ("numbers", "float"), ("units", "Fraction"), ("units", "float"), ("modes",), ("constructor-paths",), ("siblings", "Fraction", "fresh"), ("siblings", "float", "fresh"), ("siblings", "Fraction", "after-all-pairs")] + [("object-histories", i) for i in range(len(OBJ_STARTS))]
+           ("alphabet", "Fraction", "after-default-system-round-trip"), ("decimal-magnitudes",), ("numbers", "Fraction"), ("numbers", "float"), ("units", "Fraction"), ("units", "float"), ("modes",), ("constructor-paths",), ("log-zero",), ("siblings", "Fraction", "fresh"), ("siblings", "float", "fresh"), ("siblings", "Fraction", "after-all-pairs")] + [("object-histories", i) for i in range(len(OBJ_STARTS))]
     if tier == "thorough":
         for b in range(12):
             out.append(("allunits", b, 12))
@@ -422,6 +422,54 @@ def run_constructor_paths(acc):
     acc.sample({"clause": "constructor-paths", "a": ["3", "meter"], "built-by": ["pint.Quantity(m, u)", "registry.Quantity(m, u)"]})
 
 
+LOGZ = [  # (magnitude, unit, dimension tag, exact value in the dimension's root unit) — magnitude 0 of a log unit is its REFERENCE level
+    (0, "dBm", "P", Fraction(1, 1000)), (0, "watt", "P", Fraction(0)), (1, "milliwatt", "P", Fraction(1, 1000)), (0, "dBW", "P", Fraction(1)), (1, "watt", "P", Fraction(1)), (0, "milliwatt", "P", Fraction(0)),
+    (0, "decibel", "1", Fraction(1)), (0, "", "1", Fraction(0)), (1, "", "1", Fraction(1)), (0, "neper", "1", Fraction(1)), (0, "octave", "1", Fraction(1)), (0, "decade", "1", Fraction(1)), (0, "percent", "1", Fraction(0)), (100, "percent", "1", Fraction(1)),
+]
+
+
+def run_log_zero(acc):
+    """zero is special only for MULTIPLICATIVE units: magnitude 0 in a logarithmic unit is its reference level (0 dBm is one
+    milliwatt). Every pair of the alphabet, both registries' float arithmetic being exact at these values: ==, !=, <, >, hash
+    follow the values; against a bare 0 the answer is either refused or the one the value gives"""
+    ureg = regs.default("float", fresh=True)
+    Q = ureg.Quantity
+    qs = [Q(m, u) for m, u, _, _ in LOGZ]
+    for (i, (ma, ua, da, va)), (j, (mb, ub, db, vb)) in itertools.product(enumerate(LOGZ), repeat=2):
+        a, b = qs[i], qs[j]
+        acc.ev(4)
+        acc.nt(("log-zero", i, j))
+        case = {"a": [ma, ua], "b": [mb, ub]}
+        want_eq = da == db and va == vb
+        o = call(lambda: a == b)
+        if o != ("ok", want_eq):
+            acc.violation(["quantity-pair", "==", "disagrees-with-physical-value", "log-vs-" + ("log" if ub in ("dBm", "dBW", "decibel", "neper", "octave", "decade") else "mult"), "both-zero" if ma == 0 and mb == 0 else "general"], case, want_eq, o)
+        o = call(lambda: a != b)
+        if o != ("ok", not want_eq):
+            acc.violation(["quantity-pair", "!=", "is-not-the-negation-of-==", "log"], case, not want_eq, o)
+        if da == db:
+            for opn, fn, want in (("<", lambda: a < b, va < vb), (">", lambda: a > b, va > vb)):
+                o = call(fn)
+                if o != ("ok", want):
+                    acc.violation(["quantity-pair", "ordering", "disagrees-with-base-magnitudes", "log"], dict(case, op=opn), want, o)
+            if want_eq:
+                ha, hb = call(lambda: hash(a)), call(lambda: hash(b))
+                if ha != hb:
+                    acc.violation(["quantity-pair", "hash", "equal-quantities-hash-differently", "log"], case, "equal hashes", [ha, hb])
+    for i, (ma, ua, da, va) in enumerate(LOGZ):
+        a = qs[i]
+        for opn, fn, want in (("==", lambda: a == 0, va == 0), (">", lambda: a > 0, va > 0), ("<", lambda: a < 0, va < 0)):
+            acc.ev()
+            o = call(fn)
+            if o[0] == "ok" and o[1] != want:
+                acc.violation(["number", opn, "zero-comparison-disagrees", "log" if ua in ("dBm", "dBW", "decibel", "neper", "octave", "decade") else "mult"], {"a": [ma, ua], "number": "0"}, f"{want} (or a refusal)", o)
+        o = call(lambda: bool(a))
+        if o[0] == "ok" and o[1] != (va != 0):
+            acc.violation(["bool", "bool", "disagrees-with-magnitude", "log"], {"a": [ma, ua]}, va != 0, o)
+    acc.outcome("log-zero")
+    acc.sample({"clause": "log-zero", "a": [0, "dBm"], "b": [0, "watt"], "expected": "not equal: 0 dBm is 1 mW"})
+
+
 def run_numbers(acc, nt):
     """comparison with a bare number is defined only for dimensionless quantities and for zero"""
     M = model()
@@ -602,6 +650,8 @@ def run_shard(acc, shard, tier, seed):
         run_modes(acc)
     elif k == "constructor-paths":
         run_constructor_paths(acc)
+    elif k == "log-zero":
+        run_log_zero(acc)
     elif k == "siblings":
         run_alphabet(acc, shard[1], shard[2], ALPHABET=SIBLINGS)
     elif k == "object-histories":
@@ -620,6 +670,8 @@ def replay(rec):
         run_object_histories(acc, [i for i, st in enumerate(OBJ_STARTS) if [st[1], st[2]] == case["start"]][0])
     elif "built-by" in case:
         run_constructor_paths(acc)
+    elif site[-1] in ("log", "log-vs-log", "log-vs-mult") or (len(site) > 3 and str(site[3]).startswith("log-vs-")) or (site[0] in ("number", "bool") and "nt" not in case and "mode" not in case):
+        run_log_zero(acc)
     elif site[-1] == "Decimal-magnitudes-in-the-float-registry":
         run_decimal_magnitudes(acc)
     elif site[0] in ("quantity-pair", "quantity-law"):
